@@ -83,3 +83,91 @@ package f3
 //@   trusted big.Int.Int64 returns the value when it fits
 //@   pure
 //@   ensures -9223372036854775808 <= x && x <= 9223372036854775807 ==> result == x
+
+// ---- byte strings compared as opaque values ----
+//@ spec func bytesEq(a []byte, b []byte) bool
+//@ axiom bytesEq_is_an_equivalence: forall([]byte(a), []byte(b), []byte(c), bytesEq(a, a) && (bytesEq(a, b) ==> bytesEq(b, a)) && (bytesEq(a, b) && bytesEq(b, c) ==> bytesEq(a, c)))
+
+//@ func bytes.Equal
+//@   trusted bytes.Equal is equality of contents (an equivalence on byte strings)
+//@   pure
+//@   ensures result == bytesEq(a, b)
+
+// ---------------------------------------------------------------------------------------------------------------
+// C12: the equivocation filter. All recorded messages originate from this node (ProcessReceive has no caller
+// outside tests), so a slot's recorded signature is the one this node published first.
+//@ pred isSlot(k equivocationKey, m *gpbft.GMessage) = k.Sender == m.Sender && k.Round == m.Vote.Round && k.Phase == m.Vote.Phase
+//@ pred originsLocal(ef *equivocationFilter) = forall(equivocationKey(k), has(ef.seenMessages, k) ==> ef.seenMessages[k].origin == ef.localPID)
+
+//@ func (*equivocationFilter).ProcessBroadcast
+//@   property C12
+//@   requires originsLocal(ef) && ef.seenMessages != nil && ef.activeSenders != nil
+//@   modifies ef.currentInstance, ef.seenMessages, ef.activeSenders, ef.seenMessages[], ef.activeSenders[], ef.activeSenders[m.Sender].origins[]
+//@   ensures[instance_only_moves_forward] ef.currentInstance == max(old(ef.currentInstance), m.Vote.Instance)
+//@   ensures[never_publishes_for_an_older_instance] result ==> m.Vote.Instance == ef.currentInstance
+//@   ensures[published_signature_is_the_recorded_one] result ==> forall(equivocationKey(k), isSlot(k, m) ==>
+//@        has(ef.seenMessages, k) && bytesEq(ef.seenMessages[k].signature, m.Signature))
+//@   ensures[slots_of_an_instance_are_never_forgotten_or_overwritten] m.Vote.Instance <= old(ef.currentInstance) ==>
+//@        ef.seenMessages == old(ef.seenMessages) && forall(equivocationKey(k), old(has(ef.seenMessages, k)) ==>
+//@            has(ef.seenMessages, k) && ef.seenMessages[k] == old(ef.seenMessages[k]))
+//@   ensures[new_instance_starts_with_this_slot_only] m.Vote.Instance > old(ef.currentInstance) ==>
+//@        forall(equivocationKey(k), has(ef.seenMessages, k) ==> isSlot(k, m))
+//@   ensures originsLocal(ef) && ef.seenMessages != nil && ef.activeSenders != nil && ef.localPID == old(ef.localPID)
+
+//@ func slices.Contains[[]peer.ID peer.ID]
+//@   trusted slices.Contains reports membership; true only for a non-empty slice
+//@   pure
+//@   ensures result ==> len(s) > 0
+
+//@ func slices.Sort[[]peer.ID peer.ID]
+//@   trusted slices.Sort permutes the slice in place
+//@   modifies x[]
+
+// Every message goes filter -> WAL append -> publish, and what is published is the encoding of that message.
+//@ pred filterOK(ef *equivocationFilter) = originsLocal(ef) && ef.seenMessages != nil && ef.activeSenders != nil
+
+//@ func (*gpbftRunner).BroadcastMessage
+//@   property C12
+//@   requires filterOK(&h.equivFilter)
+//@   modifies auto
+//@   maypanic
+//@   at Append 1
+//@     before[recorded_only_if_the_filter_admits_it] res(ProcessBroadcast, 1) && arg(1).Message == msg
+//@   at Publish 1
+//@     before[published_only_if_the_filter_admits_it] res(ProcessBroadcast, 1) && dominatedBy(ProcessBroadcast, 1)
+//@     before[recorded_durably_before_it_is_published] dominatedBy(Append, 1)
+//@     before[publishes_the_encoding_of_that_message] arg(2) == res(Encode, 1, 0) && res(Encode, 1, 1) == nil && res(ToPartialGMessage, 1, 1) == nil
+//@   at ToPartialGMessage 1
+//@     before arg(1) == msg
+//@   at Encode 1
+//@     before arg(0) == res(ToPartialGMessage, 1, 0)
+
+//@ func (*gpbftRunner).rebroadcastMessage
+//@   property C12
+//@   requires filterOK(&h.equivFilter)
+//@   modifies auto
+//@   maypanic
+//@   at Publish 1
+//@     before[rebroadcast_passes_the_same_filter] res(ProcessBroadcast, 1) && dominatedBy(ProcessBroadcast, 1)
+//@     before[publishes_the_encoding_of_that_message] arg(2) == res(Encode, 1, 0) && res(Encode, 1, 1) == nil && res(ToPartialGMessage, 1, 1) == nil
+//@   at ToPartialGMessage 1
+//@     before arg(1) == msg
+//@   at ProcessBroadcast 1
+//@     before arg(1) == msg
+
+// On start the filter is re-armed from every WAL entry before the participant exists.
+//@ func newRunner
+//@   property C12
+//@   modifies auto
+//@   maypanic
+//@   loop 1
+//@     invariant filterOK(&runner.equivFilter)
+//@   at ProcessBroadcast 1
+//@     before[filter_rearmed_with_each_recorded_message] arg(1) == v.Message && arg(0) == &runner.equivFilter
+//@   at loopback 1
+//@     before[every_wal_entry_rearms_the_filter] dominatedBy(ProcessBroadcast, 1)
+//@   at NewParticipant 1
+//@     before[participant_created_after_the_replay] dominatedBy(All, 1)
+
+//@ structural nocallers (*equivocationFilter).ProcessReceive : every recorded slot originates from this node, which is what makes the recorded signature the published one
+//@   property C12
